@@ -2,7 +2,7 @@
 # ad hoc: driver/gotest.sh <pkg> [go test flags / test binary flags...]   (development helper, not used by checks)
 export GOFLAGS=-mod=mod GOPROXY=off GOSUMDB=off GOTOOLCHAIN=local
 D=/verif/.work/dev; mkdir -p $D
-cp /repo/go.mod $D/work.mod; cp /repo/go.sum $D/work.sum
+R=${GOTEST_REPO:-/repo}; cp $R/go.mod $D/work.mod; cp $R/go.sum $D/work.sum
 go mod edit -require=pgregory.net/rapid@v1.3.0 -require=vfkit@v0.0.0 -replace=vfkit=/verif/harness/kit $D/work.mod
 python3 - <<PY
 import os,json
@@ -11,9 +11,9 @@ base='/verif/harness/pkg'
 for root,_,files in os.walk(base):
     rel=os.path.relpath(root,base)
     for fn in files:
-        if fn.endswith('.go'): repl[os.path.join('/repo',rel,fn)]=os.path.join(root,fn)
+        if fn.endswith('.go'): repl[os.path.join(os.environ.get("GOTEST_REPO","/repo"),rel,fn)]=os.path.join(root,fn)
 json.dump({'Replace':repl},open('$D/overlay.json','w'))
 PY
 PKG=$1; shift
-cd /repo && go test -c -o $D/dev.bin -modfile=$D/work.mod -overlay=$D/overlay.json -vet=off -tags verif $GOTEST_BUILD ./$PKG || exit 2
+cd $R && go test -c -o $D/dev.bin -modfile=$D/work.mod -overlay=$D/overlay.json -vet=off -tags verif $GOTEST_BUILD ./$PKG || exit 2
 mkdir -p $D/run && cd $D/run && rm -rf testdata && $D/dev.bin "$@"
